@@ -867,10 +867,17 @@ pub fn c08_threads(cfg: C08Cfg, bound: u32) -> ThHarness {
             let tail0 = simk::with(|k| unsafe { &*((k.rings[0].pbufs[0].addr + 14) as *const std::sync::atomic::AtomicU16) }.load(std::sync::atomic::Ordering::SeqCst));
             let ring_slot: Arc<Mutex<Option<Sendable<Ring>>>> = Arc::new(Mutex::new(Some(Sendable(ring))));
             let mut bodies: Vec<(String, Body)> = Vec::new();
+            // Which buffer ids are (still) owned by a ReadBuf whose release has not begun.
+            let owned: Arc<Mutex<Vec<u16>>> = Arc::new(Mutex::new(Vec::new()));
             for (t, buf) in handed.into_iter().enumerate() {
+                let addr = buf.0.as_ptr() as usize;
+                let bid = bufs.iter().position(|(a, l)| addr >= *a && addr < *a + *l as usize).expect("handed-out buffer inside the pool") as u16;
+                owned.lock().unwrap().push(bid);
+                let owned = owned.clone();
                 bodies.push((
                     format!("releaser{t}"),
                     Box::new(move || {
+                        owned.lock().unwrap().retain(|b| *b != bid);
                         talloc::track(|| drop(buf));
                     }),
                 ));
@@ -891,7 +898,7 @@ pub fn c08_threads(cfg: C08Cfg, bound: u32) -> ThHarness {
                     }),
                 ));
                 // The kernel selects another buffer whenever one is available (at most twice).
-                let budget = Arc::new(Mutex::new(2u32));
+                let budget = Arc::new(Mutex::new(3u32));
                 let b2 = budget.clone();
                 actors.push(Actor {
                     name: "kernel-selects-buffer".into(),
@@ -905,9 +912,19 @@ pub fn c08_threads(cfg: C08Cfg, bound: u32) -> ThHarness {
                     }),
                     step: Box::new(move || {
                         *budget.lock().unwrap() -= 1;
+                        let owned_now = owned.lock().unwrap().clone();
                         simk::with(|k| {
                             if let Some(s) = k.inflight().first().copied() {
                                 k.complete(s, Out::More(i32::MIN));
+                                // The buffer the kernel took must not be one a ReadBuf still owns.
+                                if let Some(o) = k.req(s).outs.last().cloned() {
+                                    if o.flags & CQE_F_BUFFER != 0 {
+                                        let bid = (o.flags >> CQE_BUFFER_SHIFT) as u16;
+                                        if owned_now.contains(&bid) {
+                                            k.violation("owned-twice", format!("the kernel selected buffer {bid} from the buffer ring while a ReadBuf that has not been released still owns it (ReadBufs not yet released own {owned_now:?})"));
+                                        }
+                                    }
+                                }
                             }
                         })
                     }),
@@ -958,7 +975,8 @@ pub fn c08_threads(cfg: C08Cfg, bound: u32) -> ThHarness {
                     let mut d = all.clone();
                     d.dedup();
                     let sig = if d.len() != all.len() { "offered-twice" } else { "buffer-lost" };
-                    v.push(Violation::new("C08", sig, &format!("after {releasers} concurrent releases the kernel is offered {offered:?} and has selected {selected_during:?}; every buffer of {want:?} must appear exactly once")));
+                    let shown: Vec<u16> = offered.iter().copied().take(16).collect();
+                    v.push(Violation::new("C08", sig, &format!("after {releasers} concurrent releases the kernel is offered {} buffers {shown:?}{} and has selected {selected_during:?}; every buffer of {want:?} must appear exactly once", offered.len(), if offered.len() > 16 { " .." } else { "" })));
                 }
                 if !v.is_empty() {
                     std::mem::forget(op);
